@@ -13,7 +13,9 @@ import (
 	"runtime/debug"
 	"sort"
 	"strings"
+	"sync/atomic"
 	"testing"
+	"time"
 
 	"github.com/titpetric/vuego"
 	"pgregory.net/rapid"
@@ -28,7 +30,18 @@ import (
 
 const prop = "C11"
 
-const openBudget = 4000
+const openBudget = 500
+
+// hangAfter is the only clock in this check: a render of these tiny template sets (a few
+// hundred bytes, at most a 100-deep include chain: < 0.5 s on an idle box) that has not returned
+// after this long is reported as non-terminating. It exists for pure CPU loops that neither open
+// files nor write output (e.g. a cyclic sibling list walked by the serialiser).
+const hangAfter = 90 * time.Second
+
+// hung is set once a case did not return; the spinning goroutine cannot be stopped, so the
+// process winds down: later cases are skipped.
+var hung atomic.Bool
+
 const byteBudget = 32 << 20
 
 func TestMain(m *testing.M) {
@@ -164,7 +177,30 @@ func dataOf(c Case) any {
 	return m
 }
 
-func check(c Case) (err error) {
+func check(c Case) error {
+	if hung.Load() {
+		return nil
+	}
+	done := make(chan error, 1)
+	go func() { done <- checkNow(c) }()
+	select {
+	case err := <-done:
+		return err
+	case <-time.After(hangAfter):
+		hung.Store(true)
+		return fmt.Errorf("render did not return within %v (no file opens, no output: a CPU loop) for a %d-byte template set", hangAfter, totalLen(c))
+	}
+}
+
+func totalLen(c Case) int {
+	n := 0
+	for _, f := range c.Files {
+		n += len(f)
+	}
+	return n
+}
+
+func checkNow(c Case) (err error) {
 	run.Inflight(prop, "case", c)
 	fsys := memfs.FromMap(c.Files)
 	fsys.SetBudget(openBudget)
@@ -425,14 +461,16 @@ func TestProp(t *testing.T) {
 	shard, shards := run.Shard()
 	i := 0
 	ok := true
+	stopped := map[string]bool{} // a family stops at its first failure: a broken limit must not turn the run into a timeout
 	each := func(kind string, c Case, extra ...string) {
 		i++
-		if i%shards != shard {
+		if i%shards != shard || stopped[kind] {
 			return
 		}
 		nt, cls := classify(c)
 		if !run.Each(rec, kind, c, nt, append(cls, extra...), check) {
 			ok = false
+			stopped[kind] = true
 		}
 	}
 
@@ -488,7 +526,7 @@ func TestProp(t *testing.T) {
 				lay := layouts[gi%len(layouts)]
 				ent := []string{"load", "file", "vue", "string"}[gi%4]
 				i++
-				if i%shards != shard {
+				if i%shards != shard || !okG {
 					continue
 				}
 				c := graphCase(pe, ae, be, lay, ent)
